@@ -258,10 +258,11 @@ func renderMethod(w *writer, rnd *rand.Rand, f File, m Method, idx int) MFacts {
 	default:
 		name, ret = fmt.Sprintf("%s%d", normalNames[rnd.Intn(len(normalNames))], idx), "void"
 	}
-	sig := ret + " " + name + "(" + params(rnd, m.Params, m.VA) + ")"
+	rest := name + "(" + params(rnd, m.Params, m.VA) + ")"
 	if rnd.Intn(6) == 0 {
-		sig += " throws Exception"
+		rest += " throws Exception"
 	}
+	sig := ret + " " + rest
 	if m.Abs {
 		if c.iface {
 			w.add("    " + []string{"", "public ", "abstract ", "public abstract "}[rnd.Intn(4)] + sig + ";")
@@ -330,12 +331,22 @@ func renderMethod(w *writer, rnd *rand.Rand, f File, m Method, idx int) MFacts {
 			}
 		}
 	}
+	// a wrapped signature: modifiers and return type on the line the declaration starts on, the name on the next
+	wrapped := spare >= 1 && rnd.Intn(4) == 0
+	if wrapped {
+		spare--
+	}
 	// distribute the remaining spare lines as fillers between the statements
 	gaps := make([]int, len(blocks)+1)
 	for ; spare > 0; spare-- {
 		gaps[rnd.Intn(len(gaps))]++
 	}
-	w.add("    " + mods + sig + " {")
+	if wrapped {
+		w.add("    " + mods + ret)
+		w.add("            " + rest + " {")
+	} else {
+		w.add("    " + mods + sig + " {")
+	}
 	for i := 0; i <= len(blocks); i++ {
 		for k := 0; k < gaps[i]; k++ {
 			fl := c.filler()
